@@ -4,12 +4,14 @@
     Every theorem holds for EVERY sequence of random picks the model accepts, hence for every seed
     and generator.  NOTE: the code does not count the mass of the starting fragment; the property
     speaks of "the fragments added during growth", which is what [stop_rule] states.
-    Not proved, decided on the implementation's output by the check only: element-derived masses
-    (float sums against the generated PTE table and the hydrogen rule). *)
+    Element-derived masses: theorems about the model's compute_mass (fold of table masses; hydrogen
+    count = C09's), the float sums themselves are compared bit-exactly per run. *)
 From Coq Require Import String.
 From Coq Require Import List Ascii ZArith Bool.
 From CGV Require Import Base.PyBase Base.PyVal Base.PyGen Sample.GenSupport Gen.SamplerGen Sample.SampleImpl
-     Sample.SampleDefs Sample.SampleSpec Sample.SampleProofs Sample.SampleOrder Sample.SampleHistory Sample.SampleExample.
+     Sample.SampleDefs Sample.SampleSpec Sample.SampleProofs Sample.SampleOrder Sample.SampleHistory Sample.SampleMass
+     Sample.SampleExample.
+From CGV Require Gen.HydroGen Hydro.Hydrogens Hydro.HydroDefs.
 Import ListNotations.
 Open Scope Z_scope.
 
@@ -133,6 +135,33 @@ Example C17_order_nonvacuous :
   dedup [S "b"; S "a"; S "b"; S "c"; S "a"] = [S "b"; S "a"; S "c"].
 Proof. split; reflexivity. Qed.
 
+(** element-derived fragment masses: the model of compute_mass (compared bit-exactly with
+    `sampler.fragment_masses` on every run) is the left fold, over any carrier, of the table masses of the
+    template's atoms in node order followed by the completed hydrogens; each non-hydrogen atom
+    contributes the hydrogen component's count (missing_of on the GENERATED valence table, clipped at 0)
+    for its summed integer bond orders, which by C09 is the least fitting valence minus the bonds
+    whenever the bonds fit.  (Statements about the MODEL's hydrogen rule; aromatic orders are outside it.) *)
+Theorem C17_hydrogen_count_is_C09 : forall vals b, h_missing vals b = Z.max (Hydrogens.missing_of vals (2 * b)) 0.
+Proof. exact h_missing_is_hydro. Qed.
+Theorem C17_template_hcount_spec : forall ns es nh, template_hcount ns es = Ok nh ->
+  exists hs, Forall2 (node_hcount es) ns hs /\ nh = zsum hs /\ Forall (fun h => 0 <= h) hs.
+Proof. exact template_hcount_spec. Qed.
+Theorem C17_mass_is_sum : forall (M : Type) c0 madd (pte : list (pystr * M)) t x, compute_mass M c0 madd pte t = Ok x ->
+  exists ms mh hs, Forall2 (atom_mass M pte) (f_nodes t) ms /\ dict_get pte (S "H") = Some mh /\
+    Forall2 (node_hcount (f_edges t)) (f_nodes t) hs /\ Forall (fun h => 0 <= h) hs /\
+    x = fold_left madd (ms ++ repeat mh (Z.to_nat (zsum hs))) (c0 0).
+Proof. exact mass_is_sum. Qed.
+Theorem C17_mass_is_sum_Z : forall pte t x, compute_mass Z (fun z => z) Z.add pte t = Ok x ->
+  exists ms mh hs, Forall2 (atom_mass Z pte) (f_nodes t) ms /\ dict_get pte (S "H") = Some mh /\
+    Forall2 (node_hcount (f_edges t)) (f_nodes t) hs /\ x = zsum ms + zsum hs * mh.
+Proof. exact mass_is_sum_Z. Qed.
+(** ethanol-like CCO with integer masses: 2*12 + 16 + 6*1 *)
+Example C17_mass_nonvacuous :
+  let nd k e := {| t_key := k; t_fragid := 0; t_bonding := None; t_attrs := [(S "element", VStr e); (S "charge", VInt 0)] |} in
+  compute_mass Z (fun z => z) Z.add [(S "H", 1); (S "C", 12); (S "O", 16)]
+    {| f_nodes := [nd 0 (S "C"); nd 1 (S "C"); nd 2 (S "O")]; f_edges := [(0, 1, [(S "order", VInt 1)]); (1, 2, [(S "order", VInt 1)])] |} = Ok 46.
+Proof. vm_compute. reflexivity. Qed.
+
 (** non-vacuity: the example run (six steps; masses 28/15, target 120): 129 >= 120 and 114 < 120;
     the zero conditional weight ('$A' -> '$A') is never chosen, the terminal '$B' closes its atom *)
 Example C17_nonvacuous :
@@ -168,4 +197,8 @@ Print Assumptions C17_open_bonds_insertion_order.
 Print Assumptions C17_fragments_by_bonding_insertion_order.
 Print Assumptions C17_complement_candidates_exact.
 Print Assumptions C17_step_select_determined.
+Print Assumptions C17_hydrogen_count_is_C09.
+Print Assumptions C17_template_hcount_spec.
+Print Assumptions C17_mass_is_sum.
+Print Assumptions C17_mass_is_sum_Z.
 Print Assumptions C17_nonvacuous.
